@@ -267,6 +267,21 @@ c.raises('exceptions.KmipError')
 c.notes.append("for ANY wrapped function: whatever it raises leaves the wrapper as a KmipError")
 
 
+# C20: whatever the wrapper does with a failure of the wrapped function (map it, log it), neither the
+# positional nor the keyword arguments - keys, plain text, derivation data - reach a log record of
+# level INFO or above or the text of the error it raises
+from contracts.c_taint import t_no_secret_in_logs_or_errors      # noqa: E402
+SECRET = ('tainted_bytes', 'secret')
+c = contract("kmip.services.server.crypto.engine._report_library_errors.wrapper", variant="taint").props('C20')
+c.args(self=('obj', 'kmip.services.server.crypto.engine.CryptographyEngine', {'logger': 'logger'}),
+       args=('tuple', ('enum', 'kmip.core.enums.CryptographicAlgorithm'), SECRET, SECRET),
+       kwargs=('dict', {'key_material': SECRET, 'derivation_data': SECRET, 'iv_nonce': ('oneof', 'none', 'bytes')}))
+c.closure(function=('opaque_facts', 'wrapped-function', []))
+c.allow_external()
+c.raises('exceptions.KmipError')
+c.trace("no-secret-in-logs-or-error-text", t_no_secret_in_logs_or_errors)
+
+
 # ---------------------------------------------------------------- raises-only-KMIP-errors for the rest (C13)
 c = contract(CE + "verify_signature").props('C13')
 c.args(self=ENGINE, signing_key='bytes', message='bytes', signature='bytes', padding_method=PAD,
